@@ -125,6 +125,35 @@ Theorem same_extent : forall (f_min f_max : Q) (commons : list (list band)) (l :
 Proof. exact Proofs.Oms.same_extent. Qed.
 Print Assumptions same_extent.
 
+(* ---------------------------------------------------------------- the common band(s) of the amplifiers *)
+(* find_common_range, pointwise: a frequency inside a returned band lies inside a band of every amplifier; a
+   frequency strictly inside a band of every amplifier lies strictly inside a returned band (edges that two
+   amplifiers merely share are dropped by the strict test f_min < f_max of the code) *)
+Theorem find_common_range_sound : forall (amps : list (list band)) (si : band) (f : Q),
+  amps <> [] -> inb f (find_common_range amps si) -> forall amp, In amp amps -> inb f amp.
+Proof. exact Proofs.Oms.find_common_range_sound. Qed.
+Print Assumptions find_common_range_sound.
+
+Theorem find_common_range_complete : forall (amps : list (list band)) (si : band) (f : Q),
+  amps <> [] -> (forall amp, In amp amps -> sinb f amp) -> sinb f (find_common_range amps si).
+Proof. exact Proofs.Oms.find_common_range_complete. Qed.
+Print Assumptions find_common_range_complete.
+
+(* on an OMS with amplifiers whose common band edges are on the grid, for a map as build_oms_list_ok delivers it:
+   every cell is FREE or UNUSABLE; FREE implies that the slot's nominal frequency lies in a band of every
+   amplifier of the OMS; a slot whose frequency lies strictly inside a band of every amplifier is FREE *)
+Theorem free_iff_common : forall (g : graph) (si : band) (fmin fmax : Q) (l : line) (b : bitmap) (n : Z),
+  map_ok g si fmin fmax l b ->
+  oms_amps g (line_path l) <> [] ->
+  Forall (fun c => on_grid default_grid (fst c) /\ on_grid default_grid (snd c)) (elements_common_range g (line_path l) si) ->
+  frequency_to_n fmin default_grid <= n <= frequency_to_n fmax default_grid ->
+  let f := nvalue_to_frequency n default_grid in
+  (cell_at b n = Some SF \/ cell_at b n = Some SU) /\
+  (cell_at b n = Some SF -> forall amp, In amp (oms_amps g (line_path l)) -> inb f amp) /\
+  ((forall amp, In amp (oms_amps g (line_path l)) -> sinb f amp) -> cell_at b n = Some SF).
+Proof. exact Proofs.Oms.free_iff_common. Qed.
+Print Assumptions free_iff_common.
+
 (* ---------------------------------------------------------------- OMS partition *)
 Theorem chain_wf_b_sound : forall (g : graph) (d : list line), chain_wf_b g d = true -> chain_wf g d.
 Proof. exact Proofs.Oms.chain_wf_b_sound. Qed.
